@@ -233,6 +233,29 @@ Section Eval.
     end.
 End Eval.
 
+(* ------------------------------------------------------------------ eager evaluation of uncorrelated scalar subqueries *)
+(* SQL raises the cardinality error when a scalar subquery is EVALUATED.  An engine may evaluate
+   an uncorrelated scalar subquery of the WHERE clause once, before the first row, and so raise
+   the error even when no row would have needed the value (empty outer table, a deciding AND /
+   OR operand): where the row-by-row semantics above defines rows, such an error is accepted as
+   well (Corr/C18.v spec_ok).  `eager_error` = some scalar subquery at the own level of the
+   statement's WHERE has, evaluated on its own, more than one row. *)
+Fixpoint own_scalars (e : sx) : list qry :=
+  match e with
+  | XCol _ _ _ | XLit _ => []
+  | XArith _ a b | XCmp _ a b | XAnd a b | XOr a b => own_scalars a ++ own_scalars b
+  | XNot a | XIsNull _ a => own_scalars a
+  | XIn _ a _ => own_scalars a
+  | XExists _ _ => []
+  | XScalar q => [q]
+  end.
+Definition eager_error (db : list table) (q : qry) : bool :=
+  match q with
+  | QSel _ _ (Some p) =>
+      existsb (fun sq => match qeval db [] sq with ROk (_ :: _ :: _) => true | _ => false end) (own_scalars p)
+  | _ => false
+  end.
+
 (* ------------------------------------------------------------------ chains of set operations *)
 (* q0 op1 q1 op2 q2 ... as written, without parentheses; generic in the kind of leaf so that the
    two readings of a chain can be compared on leaf NUMBERS (Model/SubqClass.v) *)
